@@ -86,3 +86,41 @@ example :
     (applyT r stale (.fit [1, 2] none)).1.params = 8            -- 5 stale + 3
       ∧ (applyT r (applyT r { stale with buf := none } (.fit [5, 9] (some 1))).1 (.fit [1, 2] none)).1.params = 3 := by
   decide
+
+/-! ### The model-level switch, and rejected fits -/
+
+/-- `model.is_trainable = False`: the switch goes to every node of the model that learns (online or offline) -/
+def freezeModel (r : Rule D B P) (ns : List (TNode B P)) : List (TNode B P) :=
+  ns.map fun n => (applyT r n (.freeze true)).1
+
+theorem freezeModel_frozen (r : Rule D B P) (ns : List (TNode B P)) :
+    ∀ n ∈ freezeModel r ns, n.frozen = true := by
+  intro n hn
+  simp only [freezeModel, List.mem_map] at hn
+  obtain ⟨m, _, rfl⟩ := hn
+  simp only [applyT]
+  split
+  · assumption
+  · rfl
+
+/-- **The model-level freeze.** After it, whatever sequence of operations each learner of the model receives
+    (run, partial fits, fits - failing or not -, `fit()`, attempts to unfreeze), every one of them keeps the
+    parameters, buffers and flags it had when the model was frozen; and freezing itself changed no parameter. -/
+theorem C11_model_freeze (r : Rule D B P) (ns : List (TNode B P)) (opss : TNode B P → List (TOp D)) :
+    (∀ n ∈ freezeModel r ns, runT r n (opss n) = n)
+    ∧ (freezeModel r ns).map (·.params) = ns.map (·.params) := by
+  refine ⟨fun n hn => C11_frozen_forever r n (freezeModel_frozen r ns n hn) _, ?_⟩
+  simp only [freezeModel, List.map_map]
+  apply List.map_congr_left
+  intro n _
+  simp only [Function.comp, applyT]
+  split <;> rfl
+
+/-- **A rejected `fit(X, Y)` is a fit that failed before its first sequence**: the parameters stay, no buffers are
+    left - not even those of earlier partial fits - and the next fit is the one of a fresh node -/
+theorem C11_rejected_fit (r : Rule D B P) (n : TNode B P) (hf : n.frozen = false) (d : D) (ds d2 : List D) :
+    (applyT r n (.fit (d :: ds) (some 0))).1.params = n.params
+    ∧ (applyT r n (.fit (d :: ds) (some 0))).1.buf = none
+    ∧ (applyT r (applyT r n (.fit (d :: ds) (some 0))).1 (.fit d2 none)).1.params = r.solve (d2.foldl r.acc r.empty) := by
+  refine ⟨?_, C11_fit_cleans r n _ _ hf, C11_session_isolation r n hf _ d2 _⟩
+  simp [applyT, hf, accumulateUntil]
